@@ -918,13 +918,20 @@ class Interp(object):
                     self.imprecise('while loop bound')
                     break
                 tv = self.expr(s.test, fr)
-                if not isinstance(tv, Const):
+                before = len(self.state.notes) + self._dpos
+                try:
+                    cont = self.truth(tv, src(s.test))
+                except Fork:
                     symbolic += 1
-                    if symbolic > 3:
+                    if symbolic > 3 or sum(1 for nt in self.state.notes if nt[0] == 'truth(%s)' % src(s.test)) >= 3:
                         # a loop steered by unknown values: do not enumerate its iterations
                         self.imprecise('loop on a symbolic condition (%s)' % src(s.test))
                         break
-                if not self.truth(tv, src(s.test)):
+                    raise
+                if sum(1 for nt in self.state.notes if nt[0].startswith('truth(%s' % src(s.test)[:30])) > 3:
+                    self.imprecise('loop on a symbolic condition (%s)' % src(s.test))
+                    break
+                if not cont:
                     self.block(s.orelse, fr)
                     break
                 try:
